@@ -137,6 +137,27 @@ bool BlockingWorld::on_block_http(Xfer &x) {
 	return true;
 }
 
+void BlockingWorld::warm_up(KSI_CTX *ctx, int n) {
+	for (int w = 0; w < n; w++) {
+		CallEnv e; e.behav = B_STATUS_ERR; e.subseed = (uint64_t)w;
+		KSI_DataHash *dh = sdk::hash_from_imprint(ctx, imprint(1, "warm-up " + std::to_string(w)));
+		KSI_Signature *s = nullptr;
+		arm(e);
+		KSI_Signature_signAggregated(ctx, dh, 0, &s);
+		disarm();
+		KSI_Signature_free(s); KSI_DataHash_free(dh);
+		KSI_ExtendReq *rq = nullptr; KSI_RequestHandle *rh = nullptr; KSI_Integer *st = nullptr;
+		KSI_Integer_new(ctx, world.head() > 10 ? world.head() - 5 : 1, &st);
+		if (KSI_createExtendRequest(ctx, st, NULL, &rq) == KSI_OK) {
+			arm(e);
+			if (KSI_sendExtendRequest(ctx, rq, &rh) == KSI_OK) KSI_RequestHandle_perform(rh);
+			disarm();
+		}
+		KSI_RequestHandle_free(rh); KSI_ExtendReq_free(rq); KSI_Integer_free(st);
+	}
+	if (n > 0) K.count("probe.long_lived_context");
+}
+
 void BlockingWorld::install_hooks() {
 	N.on_block = [this](Conn &c, BlockWhat w) { return on_block_tcp(c, w); };
 	C.on_block = [this](Xfer &x) { return on_block_http(x); };
